@@ -4,6 +4,10 @@ use crate::props::c01;
 use elements::encode::{deserialize, serialize};
 use elements::{Block, Transaction, TxInWitness, TxOutWitness, Script};
 
+/// model growth: transaction-level accessors, fee accounting, pegout/pegin parsing (EV.Model.TxAccessors)
+#[path = "c12_txacc.rs"]
+pub mod txacc;
+
 fn strip(t: &Transaction) -> Transaction {
     let mut s = t.clone();
     for i in s.input.iter_mut() { i.witness = TxInWitness::empty(); }
@@ -81,4 +85,5 @@ pub fn run(rng: &mut R, out: &mut Out) {
     for _ in 0..40 * scale {
         one_block(out, &gen::block(rng));
     }
+    txacc::run(rng, out);
 }
